@@ -536,6 +536,10 @@ pub struct RDetail {
     pub prov_query: Option<ProvQuery>,
     pub expected_signature: Option<String>,
     pub presented_signature: Option<String>,
+    /// Is the presented signature the correct one for this request under the key the provider
+    /// would return? Computed whenever the request is well-formed enough to have a string to sign,
+    /// also when an earlier rule (requirements, freshness, scope) already refuses it.
+    pub sig_ok: Option<bool>,
 }
 
 pub const UTF8_LABELS: [&str; 3] = ["utf-8", "utf8", "unicode-1-1-utf-8"];
@@ -704,26 +708,33 @@ pub fn rverdict(
     signed.sort();
     det.signed_headers = Some(signed.clone());
     det.presented_signature = Some(sig.clone());
+    // rules 8, 10, 11 and 13 refuse, but the evaluation continues so that `sig_ok` is known
+    let mut first: Option<Rule> = None;
+    let mut soft = |r: Rule, first: &mut Option<Rule>| {
+        if first.is_none() {
+            *first = Some(r);
+        }
+    };
     // rule 8: R-requirements (list membership, names compared case-insensitively)
     if !signed.iter().any(|h| h == "host" || h == ":authority") {
-        return (Verdict::Refuse(Rule::Requirement), det);
+        soft(Rule::Requirement, &mut first);
     }
     for a in &node.always {
         if !signed.contains(&a.to_lowercase()) {
-            return (Verdict::Refuse(Rule::Requirement), det);
+            soft(Rule::Requirement, &mut first);
         }
     }
     for c in &node.cond {
         let c = c.to_lowercase();
         if hdrs.iter().any(|(k, _)| *k == c) && !signed.contains(&c) {
-            return (Verdict::Refuse(Rule::Requirement), det);
+            soft(Rule::Requirement, &mut first);
         }
     }
     for p in &node.prefixes {
         let p = p.to_lowercase();
         for (k, _) in &hdrs {
             if k.starts_with(&p) && !signed.contains(k) {
-                return (Verdict::Refuse(Rule::Requirement), det);
+                soft(Rule::Requirement, &mut first);
             }
         }
     }
@@ -731,26 +742,26 @@ pub fn rverdict(
     let date_bytes: Vec<u8> = date_text.chars().map(|c| if (c as u32) < 256 { c as u32 as u8 } else { b'?' }).collect();
     let (cls, inst) = iso_parse(&date_bytes);
     let t = match (cls, inst) {
-        (IsoClass::MustReject, _) | (_, None) => return (Verdict::Refuse(Rule::DateFormat), det),
-        (IsoClass::Unspecified, _) => return (Verdict::Unspecified("date form outside the statement"), det),
+        (IsoClass::MustReject, _) | (_, None) => return (first.map(Verdict::Refuse).unwrap_or(Verdict::Refuse(Rule::DateFormat)), det),
+        (IsoClass::Unspecified, _) => return (first.map(Verdict::Refuse).unwrap_or(Verdict::Unspecified("date form outside the statement")), det),
         (_, Some(t)) => t,
     };
     det.instant = Some(t);
     // rules 10, 11: R-window
     if t < now_ns - WINDOW_NS {
-        return (Verdict::Refuse(Rule::Expired), det);
+        soft(Rule::Expired, &mut first);
     }
     if t > now_ns + WINDOW_NS {
-        return (Verdict::Refuse(Rule::NotYetValid), det);
+        soft(Rule::NotYetValid, &mut first);
     }
     // rules 12, 13: R-scope
     let cp: Vec<&str> = cred.split('/').collect();
     if cp.len() != 5 {
-        return (Verdict::Refuse(Rule::Arity), det);
+        return (first.map(Verdict::Refuse).unwrap_or(Verdict::Refuse(Rule::Arity)), det);
     }
     let date = yyyymmdd(t);
     if cp[2] != node.region || cp[3] != node.service || cp[4] != "aws4_request" || cp[1] != date {
-        return (Verdict::Refuse(Rule::Scope), det);
+        soft(Rule::Scope, &mut first);
     }
     // canonical request and string to sign
     let mut creq = format!("{}\n{}\n{}\n", req.method().as_str(), cpath, cq).into_bytes();
@@ -788,14 +799,27 @@ pub fn rverdict(
         region: node.region.clone(),
         service: node.service.clone(),
     };
-    det.prov_query = Some(q.clone());
+    if first.is_none() {
+        // the key store is consulted only for requests that passed everything before
+        det.prov_query = Some(q.clone());
+    }
     let key = match prov(&q) {
         ProvAnswer::Key(k) => k,
-        ProvAnswer::Error => return (Verdict::Refuse(Rule::Provider), det),
+        ProvAnswer::Error => return (Verdict::Refuse(first.unwrap_or(Rule::Provider)), det),
     };
     // rule 15
     let expected = hex_lower(&hm(&key, &sts));
     det.expected_signature = Some(expected.clone());
+    if expected == sig {
+        det.sig_ok = Some(true);
+    } else if expected.eq_ignore_ascii_case(&sig) {
+        det.sig_ok = None;
+    } else {
+        det.sig_ok = Some(false);
+    }
+    if let Some(r) = first {
+        return (Verdict::Refuse(r), det);
+    }
     if expected == sig {
         (Verdict::Accept, det)
     } else if expected.eq_ignore_ascii_case(&sig) {
